@@ -16,7 +16,7 @@ FIELDS = ["time", "size", "packet_id", "realtime", "src", "dst", "flow_id", "ack
 STRS = {"src": "ep", "dst": "dst", "color": "c"}
 DICTS = ("priorities", "perhop_time")
 DICTK = [FIELDS.index(n) + 1 for n in DICTS]
-BASE = {"e": "", "oc": "", "oi": 0, "obj": 0, "f": 0, "s": 0, "k": 0, "w": 0, "v": 0, "fl": [], "x": ""}
+BASE = {"e": "", "oc": "", "oi": 0, "obj": 0, "f": 0, "s": 0, "k": 0, "w": 0, "v": 0, "fl": [], "x": "", "tb": []}
 _num = re.compile(r"^[a-z]+(\d+)$")
 
 
@@ -182,6 +182,7 @@ def build(sc, env, rec):
     if kind == "hub":
         eps = [make_tap(rec, "n", i + 1, SingleDevice) for i in range(n)]
         pds = [make_tap(rec, "p", i + 1, SingleDevice) if cfg["pdev"][i] else None for i in range(n)]
+        rec.eps = eps
         how = st.get("hub", "list")
         if how == "default" and not any(cfg["pdev"]):
             el = Hub(env, eps)
@@ -219,6 +220,36 @@ def build(sc, env, rec):
     raise SystemExit("unknown element kind %r" % kind)
 
 
+def reconfigure(rec, kind, el, st, state):
+    """Change the configuration of the element in use through the public API, exactly as a user would."""
+    from onl.device import SingleDevice
+    op = st["op"]
+    dm = el if kind in ("flow", "fib") else getattr(el, "demux", None)
+    if op == "set":
+        dm.fib[st["f"]] = st["p"] - 1                   # in place, on the table object the demux uses
+    elif op == "del":
+        del dm.fib[st["f"]]
+    elif op == "table":
+        dm.fib = {f: p - 1 for f, p in st["tb"]}         # a new table through the property setter
+    elif op == "out":
+        state["n"] += 1
+        dm.outs.append(make_tap(rec, "o", state["n"]))
+    elif op == "end":
+        dm.ends[st["f"]] = make_tap(rec, "e", st["f"])
+    elif op == "unend":
+        del dm.ends[st["f"]]
+    elif op == "dflt":
+        dm.default_out = make_tap(rec, "d", 0) if st["p"] else None
+    elif op == "join":
+        state["n"] += 1
+        ep = make_tap(rec, "n", state["n"], SingleDevice)
+        pd = make_tap(rec, "p", state["n"], SingleDevice) if st["p"] else None
+        el.add_endpoint(ep, pd)
+        rec.eps.append(ep)
+    else:
+        raise SystemExit("unknown reconfiguration step %r" % op)
+
+
 def run_one(sc):
     from onl.sim import Environment
     from onl.packet import Packet
@@ -234,7 +265,18 @@ def run_one(sc):
         rec.log("X", x=type(e).__name__)
         return {"cfg": cfg, "ev": rec.ev}
     timed = cfg["kind"] in ("simple", "fair")
-    for i, pt in enumerate(sc["puts"]):
+    steps = sc.get("steps")
+    if steps is None:
+        steps = [dict(p, op="put") for p in sc["puts"]]
+    state = {"n": cfg["nouts"]}
+    for i, pt in enumerate(steps):
+        if pt["op"] != "put":
+            rec.log("C", x=pt["op"], f=pt.get("f", 0), oi=pt.get("p", 0), tb=pt.get("tb", []))
+            try:
+                reconfigure(rec, cfg["kind"], el, pt, state)
+            except BaseException as e:  # noqa
+                rec.log("X", x=type(e).__name__)
+            continue
         s = pt.get("s", 0)
         pkt = Packet(env.now, 100 + i, i + 1, realtime=0, src="ep%d" % s, dst="dst9", flow_id=pt["f"])
         rec.new_put(pkt)
